@@ -515,7 +515,16 @@ def run_history(case, pool, mode, viols, pass_name):
             for tol_ in (None, 1e-1, 1e-3, 1e-6, 1e-10):
                 cm.call(overlap_integral, list(pool["basis"]), tol_screen=tol_)
             geo0 = [(float(np.min(x.exps)), np.array(x.coord, dtype=float)) for x in pool["basis"]]
-            s = apply_update(name, pool, o, frozen)
+            try:
+                s = apply_update(name, pool, o, frozen)
+            except Exception as exc:  # noqa: BLE001
+                # assigning a new parameter array (or renormalising) must work whatever the write flags of the arrays the shell
+                # was given before: an exception here means the library wrote into an array that belongs to the caller
+                viols.append(cm.viol("[%s] parameter update %s + assign_norm_cont() raised %s: %s%s" % (
+                    pass_name, name, type(exc).__name__, str(exc)[:120], " (the arrays handed over earlier are write-protected in this pass: the update writes into them)" if frozen else ""),
+                    "M-ro" if frozen else "update_raised", op=name))
+                rec.append((o, None, None, None))
+                continue
             # screening tolerances placed between the documented decision thresholds exp(-mu R^2) of the OLD and the NEW
             # parameters of every pair involving an updated shell: there a decision taken from stale parameters differs
             geo1 = [(float(np.min(x.exps)), np.array(x.coord, dtype=float)) for x in pool["basis"]]
